@@ -94,7 +94,7 @@ Rot2Cases == {[kind |-> "rot2", cs |-> a, turns |-> k, degrees |-> dg] : a \in A
 Rot3Cases == {[kind |-> "rot3", axis |-> ax, cs |-> a, turns |-> k, degrees |-> dg] : ax \in {"x","y","z"}, a \in Angles, k \in {0, 1}, dg \in BOOLEAN}
 QuatCases == {[kind |-> "quat", q |-> q] : q \in Quats}
 AboutCases == {[kind |-> "about", obj |-> o, t |-> t] : o \in {"pointcloud", "trimesh", "image"},
-                 t \in {Sc2(R(2),R(2)), Sc2(Q(1,2),Q(1,2)), Sc2(R(2),R(3)), Sc2(Q(1,2),R(-2)), Rot2(Q(3,5),Q(4,5)), Rot2(Z0,R(-1)), M3(O1,R(2),Z0, Z0,O1,Z0), M3(O1,R(1),Z0, R(-1),O1,Z0)}}
+                 t \in {Sc2(R(2),R(2)), Sc2(Q(1,2),Q(1,2)), Sc2(R(2),R(3)), Sc2(Q(1,2),R(-2)), Rot2(Q(3,5),Q(4,5)), Rot2(Z0,R(-1)), M3(O1,R(2),Z0, Z0,O1,Z0), M3(O1,R(1),Z0, R(-1),O1,Z0), M3(O1,Q(-1,2),Z0, Q(-3,2),O1,Z0)}}
 ScaleCases == {[kind |-> "scalefac", factors |-> f, ndims |-> n] : f \in {<<R(2),R(2)>>, <<R(2),R(3)>>, <<Q(1,2),Q(1,2),Q(1,2)>>, <<R(1),R(2),R(1)>>, <<R(2),Z0>>, <<Z0,Z0,Z0>>}, n \in {0}}
                \cup {[kind |-> "scalefac", factors |-> <<f>>, ndims |-> n] : f \in {R(2), Q(1,4), Z0}, n \in {2, 3}}
 TcCases == {[kind |-> "tcoords", shape |-> <<h, w>>] : h \in 2..(IF Wide THEN 12 ELSE 6), w \in 2..(IF Wide THEN 12 ELSE 6)}
